@@ -2,6 +2,7 @@ package sym
 
 import (
 	"go/token"
+	"sort"
 
 	"golang.org/x/tools/go/ssa"
 )
@@ -94,4 +95,22 @@ func (fr *Frame) Loop(h int) (*LoopInfo, bool) {
 		return nil, false
 	}
 	return li, true
+}
+
+// EdgeVal returns the value flowing into phi along its i-th edge (final state).
+func (fr *Frame) EdgeVal(phi *ssa.Phi, i int) *Term {
+	if i < 0 || i >= len(phi.Edges) {
+		return nil
+	}
+	return fr.operand(phi.Edges[i], nil)
+}
+
+// Headers returns the loop header blocks of the frame's function, sorted.
+func (fr *Frame) Headers() []int {
+	var out []int
+	for h := range fr.headers {
+		out = append(out, h)
+	}
+	sort.Ints(out)
+	return out
 }
